@@ -146,7 +146,10 @@ def analyse(classes, progs, known):
 
 UPDATE_PREFIXES = ("validate_holder_commitment", "revoke_holder_commitment", "sign_counterparty_commitment",
                    "validate_counterparty_revocation", "sign_holder_commitment", "sign_mutual_close",
-                   "htlcs_fulfilled")
+                   "htlcs_fulfilled",
+                   # the same through ChannelHandler::do_handle (protocol 4 and 6)
+                   "h4_validate_commitment", "h6_validate_commitment", "h4_revoke_commitment", "h6_revoke_commitment",
+                   "h4_sign_remote_commitment", "h6_sign_remote_commitment")
 
 
 def is_update(name):
